@@ -200,7 +200,7 @@ def _run_property(pid, tier, seed, logdir):
                     stubs=["HashMap::get = lookup over the bounded entry list using the crate's own derived CacheKey::eq", "Domain names abstracted to identities (equality only)",
                            "tokio Instant/Duration arithmetic summarised (seconds + nanoseconds with carry, Instant - Instant saturating)",
                            "logging disabled, prometheus counters no-ops", "derived Clone = structural copy"] + sorted(ex.used_summaries),
-                    tier=tier, verdict="fail" if failed else "pass", reason="", queries=ex.queries, solver_time_s=round(ex.solver_time, 2),
+                    tier=tier, **_vr(failed, ex), queries=ex.queries, solver_time_s=round(ex.solver_time, 2),
                     failed=_dedup(failed), paths=npaths, path_kinds=kinds, wall_s=round(time.time() - t0, 1)))
             except (Unsupported, Unwind) as e:
                 obligations.append(dict(name=name, engine="mirsym", functions=[], bounds="", oracle="", stubs=[], tier=tier,
@@ -216,7 +216,7 @@ def _run_property(pid, tier, seed, logdir):
                                     bounds="CacheHandler::handle_query (async body lifted verbatim) for every query: name identity, type, class, DO, CD symbolic; cache lookup outcome hit/miss; upstream lifetime symbolic",
                                     oracle="only class IN consults the cache; lookup and insert keys = (name, type, DO, CD) of the query; hit => upstream not asked; miss => asked once; stored only with positive lifetime",
                                     stubs=["async body lifted verbatim (lib/lift.py)", "get_entry / calculate_expiry / insert_cache_entry / next handler / locks = summaries (decided separately by c06_cache_lookup_*)"] + sorted(ex.used_summaries),
-                                    tier=tier, verdict="fail" if failed else "pass", reason="", queries=ex.queries, solver_time_s=round(ex.solver_time, 2),
+                                    tier=tier, **_vr(failed, ex), queries=ex.queries, solver_time_s=round(ex.solver_time, 2),
                                     failed=_dedup(failed), paths=npaths, path_kinds=kinds, wall_s=round(time.time() - t0, 1)))
         except (Unsupported, Unwind) as e:
             obligations.append(dict(name="c06_cache_wrapper_key_and_gate", engine="mirsym", functions=[], bounds="", oracle="", stubs=[], tier=tier,
@@ -240,7 +240,7 @@ def _run_property(pid, tier, seed, logdir):
                     return dict(name=oname, engine="mirsym", functions=sorted(f.split("::")[-1] for f in ex.encoded_fns), bounds=bounds, oracle=oracle,
                                 stubs=["option values = opaque 4-octet byte strings (DhcpOptionTypeValue::Unknown; as_bytes executed from MIR)", "option tables (HashMap<DhcpOption, _>) = maps with concrete option codes",
                                        "parameter request list = concrete list of codes", "logging disabled"] + sorted(ex.used_summaries),
-                                tier=tier, verdict="fail" if failed else "pass", reason="", queries=ex.queries, solver_time_s=round(ex.solver_time, 2), failed=_dedup(failed),
+                                tier=tier, **_vr(failed, ex), queries=ex.queries, solver_time_s=round(ex.solver_time, 2), failed=_dedup(failed),
                                 paths=npaths, path_kinds=kinds, wall_s=round(time.time() - t0, 1))
                 except (Unsupported, Unwind) as e:
                     return dict(name=oname, engine="mirsym", functions=[], bounds=bounds, oracle=oracle, stubs=[], tier=tier, verdict="inconclusive",
@@ -263,7 +263,7 @@ def _run_property(pid, tier, seed, logdir):
                     for f in failed:
                         f["check"] = name
                     return dict(name=name, engine="mirsym", functions=sorted(f.split("::")[-1] for f in ex.encoded_fns), bounds=bounds, oracle=oracle,
-                                stubs=codec_stubs + sorted(ex.used_summaries), tier=tier, verdict="fail" if failed else "pass", reason="", queries=ex.queries,
+                                stubs=codec_stubs + sorted(ex.used_summaries), tier=tier, **_vr(failed, ex), queries=ex.queries,
                                 solver_time_s=round(ex.solver_time, 2), failed=_dedup(failed), paths=npaths, path_kinds={str(k): v for k, v in kinds.items()},
                                 wall_s=round(time.time() - t0, 1))
                 except (Unsupported, Unwind) as e:
@@ -401,7 +401,7 @@ def _run_property(pid, tier, seed, logdir):
                 for f in failed:
                     f["check"] = name
                 obligations.append(dict(name=name, engine="mirsym", functions=sorted(f.split("::")[-1] for f in ex.encoded_fns), bounds=bounds, oracle=oracle,
-                                        stubs=lift_stub + sorted(ex.used_summaries), tier=tier, verdict="fail" if failed else "pass", reason="",
+                                        stubs=lift_stub + sorted(ex.used_summaries), tier=tier, **_vr(failed, ex),
                                         queries=ex.queries, solver_time_s=round(ex.solver_time, 2), failed=_dedup(failed), paths=npaths, path_kinds=kinds,
                                         wall_s=round(time.time() - t0, 1)))
             except (Unsupported, Unwind) as e:
@@ -432,7 +432,7 @@ def _run_property(pid, tier, seed, logdir):
                     name=name, engine="mirsym", functions=sorted(f.split("::")[-1] for f in ex.encoded_fns),
                     bounds=f"lease table with at most {n - 1} rows (every subset present, all column values symbolic), symbolic clock",
                     oracle="Ok((a, e)) with a = |{expiry > now}| and e = |{expiry <= now}| for EVERY table including the empty one",
-                    stubs=common_stubs + sorted(ex.used_summaries), tier=tier, verdict="fail" if failed else "pass", reason="",
+                    stubs=common_stubs + sorted(ex.used_summaries), tier=tier, **_vr(failed, ex),
                     queries=ex.queries, solver_time_s=round(ex.solver_time, 2), failed=_dedup(failed), paths=len(results),
                     wall_s=round(time.time() - t0, 1), sql=sorted(set(s for r in results for s in r[2].get("sql", [])))))
             except (Unsupported, Unwind) as e:
@@ -484,7 +484,7 @@ def _run_property(pid, tier, seed, logdir):
                 bounds=f"ONE allocate_address step from an arbitrary lease table of <= {step.n_rows - 1} rows (all columns symbolic, invariant assumed), "
                        f"pool of {step.pool_size} symbolic distinct addresses, {'symbolic requested address' if step.with_request else 'no requested address'}, "
                        f"symbolic client, symbolic min<=max lease (<= 366 d), symbolic non-decreasing clock; iterator loops unrolled {step.pool_size + 3}x with unwinding check; inductive over histories",
-                oracle=ORACLE[pid], stubs=common_stubs + sorted(ex.used_summaries), tier=tier, verdict="fail" if failed else "pass", reason="",
+                oracle=ORACLE[pid], stubs=common_stubs + sorted(ex.used_summaries), tier=tier, **_vr(failed, ex),
                 queries=ex.queries, solver_time_s=round(ex.solver_time, 2), failed=_dedup(failed), paths=len(paths), path_kinds=sigs,
                 claims_checked=nclaims, wall_s=round(time.time() - t0, 1), sql=sorted(set(s for p in paths for s in p[3].get("sql", [])))[:8])
         except (Unsupported, Unwind) as e:
@@ -530,7 +530,7 @@ def _run_property(pid, tier, seed, logdir):
                 oracle="; ".join(CLAIM_FILTER[pid]),
                 stubs=common_stubs + ["apply_policies / build_default_config = arbitrary policy outcome (havoc)", "DhcpOptions accessors (get_messagetype, get_serverid, get_address_request, get_client_id) = the decoded value of their option (arbitrary)",
                                       "request option re-serialisation (raw options blob) = no-op", "response option table = map with concrete option codes"] + sorted(ex.used_summaries),
-                tier=tier, verdict="fail" if failed else "pass", reason="", queries=ex.queries, solver_time_s=round(ex.solver_time, 2), failed=_dedup(failed),
+                tier=tier, **_vr(failed, ex), queries=ex.queries, solver_time_s=round(ex.solver_time, 2), failed=_dedup(failed),
                 paths=npaths, path_kinds=kinds, wall_s=round(time.time() - t0, 1))
         except (Unsupported, Unwind) as e:
             return dict(name=name, engine="mirsym", functions=[], bounds="", oracle="", stubs=common_stubs, tier=tier, verdict="inconclusive",
@@ -549,7 +549,7 @@ def _run_property(pid, tier, seed, logdir):
                             stubs=["HashSet<Ipv4Addr> = explicit list of symbolic members / uninterpreted membership predicate / difference / lazily generated (range -> map -> filter) set; "
                                    "membership is decided through the generator with the real closures executed from MIR",
                                    "Mutex<RefCell<_>> (address cache) = plain cell (single thread)"] + sorted(ex.used_summaries),
-                            tier=tier, verdict="fail" if failed else "pass", reason="", queries=ex.queries, solver_time_s=round(ex.solver_time, 2), failed=_dedup(failed),
+                            tier=tier, **_vr(failed, ex), queries=ex.queries, solver_time_s=round(ex.solver_time, 2), failed=_dedup(failed),
                             paths=npaths, path_kinds=kinds, wall_s=round(time.time() - t0, 1))
             except (Unsupported, Unwind) as e:
                 return dict(name=name, engine="mirsym", functions=[], bounds=bounds, oracle=oracle, stubs=[], tier=tier, verdict="inconclusive",
@@ -577,6 +577,17 @@ def _run_property(pid, tier, seed, logdir):
         jobs.append((name, (lambda kind=kind, pset=pset, name=name: handler_job(kind, pset, name))))
     obligations.extend(run_jobs(jobs))
     return _with_replay(pid, obligations, logdir)
+
+
+def _vr(failed, ex):
+    """verdict of an obligation: a solver-decided violation on any path is a failure; paths the encoder could not execute
+    (unsupported construct, unwinding bound) leave an otherwise clean obligation undecided"""
+    und = getattr(ex, "undecided_paths", [])
+    if failed:
+        return dict(verdict="fail", reason=("; %d path(s) outside the encoder's subset: %s" % (len(und), und[0]) if und else ""))
+    if und:
+        return dict(verdict="inconclusive", reason="outside the encoder's subset on %d path(s): %s" % (len(und), und[0]))
+    return dict(verdict="pass", reason="")
 
 
 def _z(v, w=32):
